@@ -57,7 +57,7 @@ theorem pgl_step (G : GCtx) (n : Nat) (hPE : PE G n) (hPB : PGBS G n) (hPL : PGL
     | error ce' => exact SimGS.of_exprError _ hrel hls h1
     | ok v =>
       obtain ⟨hfr, mem1, hrun, hml⟩ := h1
-      have hsp1 := hsp.world st1 hfr
+      have hsp1 := hsp.world st1 hfr hrun.inv
       have hfr' : st1 = { spec with scopes := st1.scopes, out := st1.out, heap := st1.heap } := by rw [hfr]
       have hrel1 : GRel G A env.scopes env.vm st1.scopes mem1 := by rw [hfr]; exact hrel.memLe hml
       cases v <;> try trivial
@@ -94,7 +94,7 @@ theorem pgl_step (G : GCtx) (n : Nat) (hPE : PE G n) (hPB : PGBS G n) (hPL : PGL
             SimGS G A loops lscopes d ip (nI cc.1 + 1 + nI cb.1 + 1) stk mem (GRel G A env.scopes env.vm) spec
               (loopRun G.cfg n (some c) body s') := by
           intro s' mem2 hfr2 hround hml2 hsr
-          have hsp2 := hsp1.scopes_out s' hfr2
+          have hsp2 := hsp1.scopes_out s' hfr2 hround.inv
           have hrel2 := hrel.of_scopes hsr
           have hloop := hPL A hA loops lscopes d sp (some c) body env s' ip stk mem2 hs hT hws hN hpl hls hrel2 hsp2
           simp only [cgS, hH, hA', hC, hB, nI_append, hnL, hnX, hnY, Nat.zero_add] at hloop
@@ -178,7 +178,7 @@ theorem pgl_step (G : GCtx) (n : Nat) (hPE : PE G n) (hPB : PGBS G n) (hPL : PGL
         SimGS G A loops lscopes d ip (nI cb.1 + 1) stk mem (GRel G A env.scopes env.vm) spec
           (loopRun G.cfg n none body s') := by
       intro s' mem2 hfr2 hround hml2 hsr
-      have hsp2 := hsp.scopes_out s' hfr2
+      have hsp2 := hsp.scopes_out s' hfr2 hround.inv
       have hrel2 := hrel.of_scopes hsr
       have hloop := hPL A hA loops lscopes d sp none body env s' ip stk mem2 hs hT hws hN hpl hls hrel2 hsp2
       simp only [cgS, hH, hA', hB, nI_append, hnL, hnY, Nat.zero_add] at hloop
